@@ -273,3 +273,22 @@ def fixed_value_space_rule(ctx: Ctx, rule: str, f: FuncInfo, what: str, value_na
                '' if ok else (f'comparison `{bad[0]}` is not between decoded values' if bad else 'no comparison of decoded values guards the report: '
                               'lexically different spellings of the same value (1.0 / 1.00, true / 1) would be rejected'),
                key=f'{f.qualname}|fixed-value-space|{text(c.args[2]) if len(c.args) > 2 else ""}')
+
+
+
+def context_copy_shares(ctx: Ctx, rule: str, attrs: tuple[str, ...]) -> None:
+    """ValidationContext.__copy__ must hand the *same* collector/table objects to the copy: XsdElement.raw_decode
+    continues with `context = _copy(context)` and whatever is recorded through the copy must reach the caller."""
+    f = ctx.idx.func('xmlschema.validators.validation.ValidationContext.__copy__')
+    ctx.analysed(f.qualname)
+    slot_loop = 'for attr in iter_class_slots(self)' in text(f.node) and 'setattr(context, attr, getattr(self, attr))' in text(f.node)
+    for a in attrs:
+        sets = [s_ for s_ in walk_no_nested(f.node) if isinstance(s_, ast.Assign) and text(s_.targets[0]) == f'context.{a}']
+        ok = slot_loop if not sets else all(text(s_.value) == f'self.{a}' for s_ in sets)
+        ctx.ob(rule, f'a copied validation context shares `{a}` with the original (same object)', f.loc(sets[0]) if sets else f.loc(), ok,
+               '' if ok else f'`{text(sets[0])}`: what is recorded after raw_decode switches to the copy (inheritable attributes, validation_hook '
+               f'mode switch) never reaches the context the caller reads', key=f'ValidationContext.__copy__|shares|{a}')
+    # the sites that switch to a copy
+    e = ctx.idx.func('xmlschema.validators.elements.XsdElement.raw_decode')
+    n = sum(1 for s_ in walk_no_nested(e.node) if isinstance(s_, ast.Assign) and text(s_.targets[0]) == 'context' and text(s_.value) in ('_copy(context)', 'copy(context)'))
+    ctx.floor(rule, 'sites of XsdElement.raw_decode that continue with a copied context', n, 1)
